@@ -23,6 +23,9 @@ vars == <<i, k, c>>
 
 Item == Items[i]
 M == Item.module
+\* a scenario may bring further modules ("modules"); an instantiate operation names the one it instantiates ("mod", 1 = Item.module)
+Mods == IF "modules" \in DOMAIN Item THEN <<Item.module>> \o Item.modules ELSE <<Item.module>>
+ModNo(op) == IF "mod" \in DOMAIN op THEN op.mod ELSE 1
 \* instructions per script operation before the machine gives up (status "fuel"); items may carry their own budget
 FuelPerCall == IF "fuel" \in DOMAIN Item THEN Item.fuel ELSE 4000
 
@@ -64,25 +67,29 @@ Begin(n) ==
           \* releasing an instance changes nothing the specification can see (the script does not use it again)
           [] op.op = "free" -> done(st)
           [] op.op = "instantiate" ->
-              LET s2 == Instantiate(M, st, op.binds)
+              LET MM == Mods[ModNo(op)]
+                  s2 == SetLastMod(Instantiate(MM, st, op.binds), ModNo(op))
               IN  \* the properties speak about valid modules only: an invalid scenario is refused (an error of whoever produced it)
-                  IF ~Valid(M) THEN [IdleCfg(st) EXCEPT !.status = "invalid", !.trap = ModuleErr(M)]
-                  ELSE IF ~SegmentsInBounds(M, s2, Len(s2.insts)) THEN [IdleCfg(st) EXCEPT !.status = "undefined"]
-                  ELSE IF M.start >= 0
-                  THEN Invoke(M, IdleCfg(s2), Len(s2.insts), M.start, <<>>, FuelPerCall, MaxDepth)
+                  IF ~Valid(MM) THEN [IdleCfg(st) EXCEPT !.status = "invalid", !.trap = ModuleErr(MM)]
+                  ELSE IF ~SegmentsInBounds(MM, s2, Len(s2.insts)) THEN [IdleCfg(st) EXCEPT !.status = "undefined"]
+                  ELSE IF MM.start >= 0
+                  THEN Invoke(MM, IdleCfg(s2), Len(s2.insts), MM.start, <<>>, FuelPerCall, MaxDepth)
                   ELSE done(s2)
           [] op.op = "child" ->
-              LET s2 == IF "binds" \in DOMAIN op THEN InstantiateChildWith(M, st, op.inst, op.binds) ELSE InstantiateChild(M, st, op.inst)
-              IN  IF ~SegmentsInBounds(M, s2, Len(s2.insts)) THEN [IdleCfg(st) EXCEPT !.status = "undefined"]
-                  ELSE IF M.start >= 0
-                  THEN Invoke(M, IdleCfg(s2), Len(s2.insts), M.start, <<>>, FuelPerCall, MaxDepth)
+              LET MM == ModOf(Mods, st, op.inst)
+                  s2 == SetLastMod(IF "binds" \in DOMAIN op THEN InstantiateChildWith(MM, st, op.inst, op.binds) ELSE InstantiateChild(MM, st, op.inst),
+                                   st.insts[op.inst].mod)
+              IN  IF ~SegmentsInBounds(MM, s2, Len(s2.insts)) THEN [IdleCfg(st) EXCEPT !.status = "undefined"]
+                  ELSE IF MM.start >= 0
+                  THEN Invoke(MM, IdleCfg(s2), Len(s2.insts), MM.start, <<>>, FuelPerCall, MaxDepth)
                   ELSE done(s2)
           [] op.op = "call" ->
-              Invoke(M, IdleCfg(st), op.inst, ExportIndex(M, op.export, "func"),
+              LET MM == ModOf(Mods, st, op.inst) IN
+              Invoke(MM, IdleCfg(st), op.inst, ExportIndex(MM, op.export, "func"),
                      T([j \in 1..Len(op.args) |-> V(op.args[j].t, op.args[j].b)]), FuelPerCall, MaxDepth)
 
 StepMachine == /\ c.status = "running"
-               /\ c' = Step(M, c)
+               /\ c' = Step(Mods, c)
                /\ UNCHANGED <<i, k>>
 
 \* an operation has finished: write its observation, then start the next one
